@@ -9,6 +9,15 @@
   (no Multi / MultiDevice flag) and carry a non-empty device ID — what `Session.queue` enqueues for a
   session that is not relaying pre-batched proxy traffic. Tag lists are compared modulo `core`
   (tags are re-stamped / merged per transmission and are not among the fields the property names).
+
+  Scope notes (from an adversarial review of these statements, see DESIGN.md Appendix B.5):
+  * a queued packet with Job 0 and an ID above 1 gets a random Job in `verifyPacket`; the model
+    keeps Job 0 for it (the drawn number is not an input of `nextPacket`), so for such packets the
+    theorems speak modulo the Job field - the harness compares them the same way.
+  * the theorems hand the batch straight to the receiver's unpack loop; that the batch itself is
+    marshalable (its merged tag list stays within PacketMaxTags) is not proved: two packets with very
+    long tag lists can produce a batch that `Marshal` refuses after the packets were dequeued. Tags
+    are stamped by proxies (a handful per packet); recorded as an observation, not exercised.
 -/
 import XMT.BatchLast
 namespace XMT.Props.C03
